@@ -411,6 +411,13 @@ func ledgerMain(s ledgerSpec, args []string) int {
 	if s.id == "C10" && *replay != "" && isSchedReplay(*replay) {
 		return sched.ReplayFile("C10", c10Scenarios(), *replay)
 	}
+	if s.id == "C02" && fs.NArg() >= 1 && fs.Arg(0) == "schedworker" {
+		sched.WorkerMain(c02Scenarios())
+		return 0
+	}
+	if s.id == "C02" && *replay != "" && isSchedReplay(*replay) {
+		return sched.ReplayFile("C02", c02Scenarios(), *replay)
+	}
 	if s.id == "C14" && fs.NArg() >= 1 && fs.Arg(0) == "schedworker" {
 		sched.WorkerMain(c14Scenarios())
 		return 0
@@ -540,6 +547,13 @@ func ledgerMain(s ledgerSpec, args []string) int {
 	}
 	if s.id == "C10" && (*run == "" || *run == "sched") {
 		ex, div := schedPart(rep, "C10", c10Scenarios(), *procs, 0)
+		if !ex {
+			rep.Set("sched_note", "SCHED part capped; SPACE part exhaustive within its bound")
+		}
+		total.Diverged += div
+	}
+	if s.id == "C02" && (*run == "" || *run == "sched") {
+		ex, div := schedPart(rep, "C02", c02Scenarios(), *procs, 1)
 		if !ex {
 			rep.Set("sched_note", "SCHED part capped; SPACE part exhaustive within its bound")
 		}
